@@ -165,6 +165,7 @@ type Sim struct {
 	stopWhy  string
 
 	pilotCalls []string
+	bHist      *[]*dcsHist
 }
 
 func (s *Sim) now() time.Duration { return time.Since(s.t0) }
@@ -329,6 +330,7 @@ func (s *Sim) run(until time.Duration) {
 		if len(s.heap) > 0 && s.heap[0].at <= s.now() {
 			e := heap.Pop(&s.heap).(*event)
 			s.evSeq++
+			evSeqA.Store(s.evSeq)
 			s.stats.Steps++
 			e.run()
 			synctest.Wait()
